@@ -471,14 +471,19 @@ func packResults(rs []Val) Val {
 	return Val{T: types.NewTuple(), Tup: rs}
 }
 
-// havocForCall forgets every memory region the callee may write.
+// havocForCall forgets every memory region the callee may write. Keys the
+// callee writes only at references it allocated itself are left alone: the
+// caller knows nothing about memory at unallocated references, so the old
+// array is a sound stand-in (DESIGN §2.2 "Heap").
 func (e *Exec) havocForCall(st *State, callee *ssa.Function, cc *ssa.CallCommon, args []Val) {
 	keys := map[string]string{}
 	all := false
 	if callee != nil && e.eng.inRepo(callee) {
 		fp := e.eng.footprint(callee, e.sc)
 		for k, s := range fp.keys {
-			keys[k] = s
+			if fp.old[k] {
+				keys[k] = s
+			}
 		}
 		all = fp.all
 	} else {
@@ -491,7 +496,9 @@ func (e *Exec) havocForCall(st *State, callee *ssa.Function, cc *ssa.CallCommon,
 		if cc != nil && cc.IsInvoke() {
 			fp := e.eng.invokeFootprint(cc, e.sc)
 			for k, s := range fp.keys {
-				keys[k] = s
+				if fp.old[k] {
+					keys[k] = s
+				}
 			}
 			all = all || fp.all
 		}
